@@ -25,6 +25,27 @@ func checkC06(c *Ctx) {
 	// ---- C06.1
 	r.Rule("C06.1", "the guard returns the single checked resolution result, dominated by the policy tests", 6)
 	if f := c.fn("C06.1", lib, "RegConfig", "ParseOrResolveBlocklisted"); f != nil {
+		// a wrapper that hands its own receiver and input to one helper which does the resolving: decide the helper
+		isResolver := func(n string) bool {
+			return strings.HasPrefix(n, "net.Resolve") || strings.HasPrefix(n, "net.Lookup") || strings.HasPrefix(n, "(*net.Resolver).")
+		}
+		if len(callsIn(f, func(n string, _ *ssa.CallCommon) bool { return isResolver(n) })) == 0 && len(f.Params) == 2 {
+			var inner *ssa.Function
+			for _, ci := range callsIn(f, func(string, *ssa.CallCommon) bool { return true }) {
+				cal := ci.Common().StaticCallee()
+				if cal == nil || cal.Blocks == nil || !isRepoPath(fnPkgPath(cal)) || len(ci.Common().Args) != 2 {
+					continue
+				}
+				if ci.Common().Args[0] == ssa.Value(f.Params[0]) && ci.Common().Args[1] == ssa.Value(f.Params[1]) &&
+					len(callsIn(cal, func(n string, _ *ssa.CallCommon) bool { return isResolver(n) })) > 0 {
+					inner = cal
+				}
+			}
+			if inner != nil {
+				r.Note("C06.1: %s delegates to %s; the helper is decided (and the wrapper's own effects by C06.5)", fnName(f), fnName(inner))
+				f = inner
+			}
+		}
 		var resolvers []*ssa.Call
 		eachInstr(f, func(in ssa.Instruction) {
 			if call, ok := in.(*ssa.Call); ok {
@@ -221,6 +242,73 @@ func checkC06(c *Ctx) {
 	}
 
 	// ---- C06.4 dial sites
+	// ---- C06.5 the decision is a function of the input and the current policy only
+	r.Rule("C06.5", "the covert guard and everything it calls keep no state of their own: no store to a field, map, global or channel", 1)
+	if f := c.P.Func(repoMod+"/"+lib, "RegConfig", "ParseOrResolveBlocklisted"); f != nil && f.Blocks != nil {
+		seen := map[*ssa.Function]bool{}
+		var order []*ssa.Function
+		var visit func(g *ssa.Function)
+		visit = func(g *ssa.Function) {
+			if g == nil || seen[g] || g.Blocks == nil || !isRepoPath(fnPkgPath(g)) || strings.Contains(fnPkgPath(g), "/station/log") {
+				return
+			}
+			seen[g] = true
+			order = append(order, g)
+			for _, a := range g.AnonFuncs {
+				visit(a)
+			}
+			eachInstr(g, func(in ssa.Instruction) {
+				if ci, ok := in.(ssa.CallInstruction); ok {
+					visit(ci.Common().StaticCallee())
+				}
+			})
+		}
+		visit(f)
+		nBad := 0
+		for _, g := range order {
+			eachInstr(g, func(in ssa.Instruction) {
+				what := ""
+				switch x := in.(type) {
+				case *ssa.Store:
+					switch a := x.Addr.(type) {
+					case *ssa.FieldAddr:
+						if al, isLocal := a.X.(*ssa.Alloc); isLocal && !al.Heap {
+							return
+						}
+						if al, isLocal := a.X.(*ssa.Alloc); isLocal && freshRoot(al, g) {
+							return
+						}
+						what = "stores to " + firstN(pathOf(a), 50)
+					case *ssa.Global:
+						what = "stores to package variable " + a.Name()
+					}
+				case *ssa.MapUpdate:
+					if _, fld, ok := fieldOwner(stripLoad(x.Map)); ok {
+						what = "updates the map in field " + fld
+					} else if u, ok := x.Map.(*ssa.UnOp); ok {
+						if gl, ok := u.X.(*ssa.Global); ok {
+							what = "updates the package-level map " + gl.Name()
+						}
+					}
+				case *ssa.Send:
+					what = "sends on a channel"
+				case ssa.CallInstruction:
+					n := calleeName(x.Common())
+					if n == "(*sync.Map).Store" || n == "(*sync.Map).LoadOrStore" || n == "(*sync.Pool).Put" {
+						what = "calls " + shortName(n)
+					}
+				}
+				if what != "" {
+					nBad++
+					r.Bad("C06.5", fnName(g)+": "+what, in.Pos(), fnName(g), "code reachable from the covert guard "+what+": the guard's answer can then depend on earlier calls (a remembered admission outlives a policy reload; a remembered refusal outlives an allowlist change) instead of the current policy alone")
+				}
+			})
+		}
+		if nBad == 0 {
+			r.OK("C06.5", "ParseOrResolveBlocklisted and its callees keep no state", f.Pos(), fmt.Sprintf("%d function(s) reachable through static calls: no field / map / global / channel write", len(order)))
+		}
+	}
+
 	r.Rule("C06.4", "dial sites in station code are reviewed; only Proxy dials a registration's stored covert", 3)
 	stationPkgs := []string{"pkg/station/lib", "pkg/station/liveness", "cmd/application", "pkg/transports/connecting/dtls", "pkg/dtls", "pkg/dtls/dnat", "pkg/station/geoip", "pkg/station/log"}
 	dialers := map[string]bool{"net.Dial": true, "net.DialTimeout": true, "net.DialTCP": true, "net.DialUDP": true, "net.DialIP": true, "(*net.Dialer).Dial": true, "(*net.Dialer).DialContext": true,
